@@ -1,6 +1,6 @@
 (* C18 - facts about html_escape and the HTML machine (Model/C18_Html.v). *)
 From Coq Require Import ZArith List Bool Lia.
-From PTK Require Import Lib.Sx Lib.Py Model.C18_Fragments Model.C18_Ansi Model.C18_Html.
+From PTK Require Import Lib.Sx Lib.Py Gen.Whitespace Model.C18_Fragments Model.C18_Ansi Model.C18_Html.
 Import ListNotations.
 Open Scope Z_scope.
 
@@ -290,42 +290,85 @@ Definition S_red_nbsp_bold : str := (* red<NBSP>bold *)
 
 (* F10: the value closes the single-quoted attribute and adds bg *)
 Theorem html_attr_inert_single_quote_refuted :
-  html_template cfg_as_coded [S_style_fg_sq; S_x_end_sq] [S_red_bg_blue]
+  html_template cfg_pinned [S_style_fg_sq; S_x_end_sq] [S_red_bg_blue]
   = Ok [mkfrag S_fg_red_bg_blue [120] []].
 Proof. vm_compute. reflexivity. Qed.
 
 Example html_attr_single_quote_repaired_example :
-  html_template cfg_repaired [S_style_fg_sq; S_x_end_sq] [S_red_bg_blue] = Err 1.
+  html_template cfg_now [S_style_fg_sq; S_x_end_sq] [S_red_bg_blue] = Err 1.
   (* fg is the whole value; it contains a space: the documented ValueError *)
 Proof. vm_compute. reflexivity. Qed.
 
 (* F8: a value character outside XML's Char makes the call raise *)
 Theorem html_text_value_raises_refuted :
-  html_template cfg_as_coded [[60; 105; 62]; [60; 47; 105; 62]] [[27; 91; 48; 109]] = Err 2.
+  html_template cfg_pinned [[60; 105; 62]; [60; 47; 105; 62]] [[27; 91; 48; 109]] = Err 2.
 Proof. vm_compute. reflexivity. Qed.
 
 Example html_text_value_repaired_example :
-  html_template cfg_repaired [[60; 105; 62]; [60; 47; 105; 62]] [[27; 91; 48; 109]]
+  html_template cfg_now [[60; 105; 62]; [60; 47; 105; 62]] [[27; 91; 48; 109]]
   = Ok [mkfrag [99; 108; 97; 115; 115; 58; 105] [63; 91; 48; 109] []].
 Proof. vm_compute. reflexivity. Qed.
 
 (* the fg/bg guard lets a no-break space through: the style string gets a second word *)
 Theorem html_attr_space_guard_refuted :
-  html_template cfg_as_coded [S_style_fg_dq; S_x_end_dq] [S_red_nbsp_bold]
+  html_template cfg_pinned [S_style_fg_dq; S_x_end_dq] [S_red_nbsp_bold]
   = Ok [mkfrag ([102; 103; 58] ++ S_red_nbsp_bold) [120] []].
 Proof. vm_compute. reflexivity. Qed.
 
 Example html_attr_space_guard_repaired_example :
-  html_template cfg_repaired [S_style_fg_dq; S_x_end_dq] [S_red_nbsp_bold] = Err 1.
+  html_template cfg_now [S_style_fg_dq; S_x_end_dq] [S_red_nbsp_bold] = Err 1.
 Proof. vm_compute. reflexivity. Qed.
 
 (* hypotheses of the inertness theorems are satisfiable *)
 Example html_text_inert_example :
-  exists h acc rb, hrun cfg_as_coded hst0 (t_open_root ++ [60; 98; 62; 97]) = Ok h /\
+  exists h acc rb, hrun cfg_pinned hst0 (t_open_root ++ [60; 98; 62; 97]) = Ok h /\
                    h_mode h = HText acc false rb /\ h_stack h <> [].
 Proof. eexists. eexists. eexists. split; [vm_compute; reflexivity|]. split; [reflexivity | discriminate]. Qed.
 
 Example html_attr_inert_example :
-  exists h acc, hrun cfg_as_coded hst0 (t_open_root ++ S_style_fg_dq) = Ok h /\
+  exists h acc, hrun cfg_pinned hst0 (t_open_root ++ S_style_fg_dq) = Ok h /\
                 h_mode h = HAttrVal n_style [] n_fg DQ acc false.
 Proof. eexists. eexists. split; [vm_compute; reflexivity | reflexivity]. Qed.
+
+(* ---------------------------------------------------------------------- *)
+(* The code that is in /repo now (cfg_now): no side condition on XML's Char,
+   both quote styles. *)
+
+Theorem html_escape_no_apos_now v : mem_Z SQ (html_escape cfg_now v) = false.
+Proof. exact (html_escape_no_apos_repaired cfg_now v eq_refl). Qed.
+
+Theorem html_text_inert_now v h acc rb :
+  h_mode h = HText acc false rb -> h_stack h <> [] ->
+  ~ In 13 v ->
+  exists rb', hrun cfg_now h (html_escape cfg_now v)
+              = Ok (set_hmode h (HText (acc ++ map (dat cfg_now) v) false rb')).
+Proof.
+  intros Hm Hs Hv. apply (html_text_inert cfg_now v h acc rb Hm Hs).
+  apply Forall_forall. intros c Hc. split.
+  - now apply dat_xml_repaired.
+  - intros ->. contradiction.
+Qed.
+
+Theorem html_attr_inert_now nm ats an q v h acc :
+  h_mode h = HAttrVal nm ats an q acc false ->
+  (q = DQ \/ q = SQ) ->
+  (forall c, In c v -> c <> 13 /\ c <> 10 /\ c <> 9) ->
+  hrun cfg_now h (html_escape cfg_now v)
+  = Ok (set_hmode h (HAttrVal nm ats an q (acc ++ map (dat cfg_now) v) false)).
+Proof.
+  intros Hm Hq Hv. apply (html_attr_inert cfg_now nm ats an q v h acc Hm).
+  - destruct Hq as [Hq|Hq]; [now left | right; split; [assumption | reflexivity]].
+  - apply Forall_forall. intros c Hc. split; [now apply dat_xml_repaired | now apply Hv].
+Qed.
+
+(* the fg/bg guard: a value it lets through contains no str.isspace character *)
+Theorem html_space_guard_now v :
+  has_space cfg_now v = false ->
+  forall c, In c v -> mem_Z c Gen.Whitespace.py_isspace_table = false.
+Proof.
+  unfold has_space. cbn [cfg_attr_isspace cfg_now]. intros H c Hc.
+  destruct (mem_Z c Gen.Whitespace.py_isspace_table) eqn:E; [|reflexivity].
+  assert (Hx : existsb (fun c0 => mem_Z c0 Gen.Whitespace.py_isspace_table) v = true).
+  { apply existsb_exists. exists c. now split. }
+  congruence.
+Qed.
